@@ -406,6 +406,7 @@ for i, op in enumerate(("iter", "keys", "values", "ref_into_iter")):
 for i, op in enumerate(("iter_mut", "values_mut")):
     add("c09_%s_zstv" % op, "c09::h_iter_mut::<u8, (), {N}>(%d)" % i, ["C09"], N_(2), N_(2, 3), unwind="N+4", fn="Map::%s with a zero-sized value type" % op, shape="u8/()")
     add("c09_%s_zst" % op, "c09::h_iter_mut::<(), (), {N}>(%d)" % i, ["C09"], N_(1), N_(1, 2), unwind="N+4", fn="Map::%s over zero-sized entries" % op, shape="S_zst")
+add("c07_lookup_zst", "c07::h_zst_lookup::<{N}>()", ["C07", "C01", "C05"], N_(1, 2), N_(1, 2, 3), unwind="N+4", fn="Set::contains/get/remove, Map::contains_key/get/get_mut/get_key_value/remove on zero-sized entries", shape="S_zst")
 add("c09_set_iter_zst", "c09::h_set_iter::<(), {N}>()", ["C09"], N_(1), N_(1, 2), unwind="N+4", fn="Set::iter over a zero-sized element", shape="S_zst")
 add("c10_into_iter_zst", "c10::h_into_iter::<(), (), {N}>(0)", ["C10"], N_(1), N_(1, 2), unwind="N+4", fn="Map::into_iter over zero-sized entries", shape="S_zst")
 add("c15_clone_count_nodrop", "c14::h_clone_count_nodrop::<{N}>({A})", ["C15"], NL(2, (0, 1, 2)), NL(3, (0, 2, 3)), fn="Clone::clone for Map: clone calls counted for a type without a destructor", shape="Cc (Clone with effect, no Drop)")
